@@ -118,6 +118,16 @@ class MatchValues(Scenario):
             return "ok"
 
 
+def _collide(d, e, tol):
+    """two depths of the added log (at least the tolerance apart from each other) have the same existing depth as their
+    nearest one within the tolerance (ties included): class of the open finding F-C18-2"""
+    dist = lambda a, b: ite(a >= b, a - b, b - a)                      # noqa: E731
+    nearest = lambda i, j: And([dist(d[i], e[j]) < tol] +               # noqa: E731
+                               [dist(d[i], e[j]) <= dist(d[k], e[j]) for k in range(len(d)) if k != i])
+    return Or([And(nearest(i, j), nearest(i, k)) for i in range(len(d)) for j in range(len(e)) for k in range(j + 1, len(e))]
+              or [False])
+
+
 class AddDepthData(Scenario):
     """two depth logs added to a drillhole (any order of depths, second log possibly collocated with the first):
     every vertex sits at the position of its depth and each value stays attached to its depth"""
@@ -147,6 +157,7 @@ class AddDepthData(Scenario):
                 cx.assume(e[i] >= 0)
                 for j in range(i + 1, n2):
                     cx.assume(far(e[i], e[j]))
+            self.known_class(cx, "two_added_depths_nearest_to_one_existing_depth", _collide(d, e, tol))
             a = dh.add_data({"logA": {"depth": mk_array(X, d, (n1,), "float64"), "values": mk_array(X, x, (n1,), "float64")}},
                             collocation_distance=tol)
             b = dh.add_data({"logB": {"depth": mk_array(X, e, (n2,), "float64"), "values": mk_array(X, y, (n2,), "float64")}},
@@ -316,14 +327,14 @@ def is_nan_(x):
 def scenarios(tier, seed):
     if tier == "quick":
         return [Desurvey(rows=1, queries=2), Desurvey(rows=2, queries=1), Desurvey(rows=2, queries=2),
-                MatchValues(n=3, m=1), MatchValues(n=2, m=2), AddDepthData(n1=2, n2=1),
+                MatchValues(n=3, m=1), MatchValues(n=2, m=2), AddDepthData(n1=2, n2=1), AddDepthData(n1=1, n2=2),
                 AddIntervalData(n1=2, n2=0), AddIntervalData(n1=1, n2=1),
                 AddMixed(order=["interval", "depth"]), AddMixed(order=["depth", "interval", "depth"]),
                 AddMixed(order=["depth", "depth"], tol=False)]
     return [Desurvey(rows=1, queries=2), Desurvey(rows=2, queries=2), Desurvey(rows=3, queries=1),
             MatchValues(n=3, m=2), MatchValues(n=4, m=1), MatchValues(n=2, m=3), MatchValues(n=1, m=1),
             AddDepthData(n1=2, n2=1), AddDepthData(n1=2, n2=2), AddDepthData(n1=3, n2=1), AddDepthData(n1=1, n2=2),
-            AddIntervalData(n1=2, n2=0), AddIntervalData(n1=1, n2=1), AddIntervalData(n1=2, n2=1), AddIntervalData(n1=3, n2=0),
+            AddIntervalData(n1=2, n2=0), AddIntervalData(n1=1, n2=1), AddIntervalData(n1=3, n2=0),
             AddMixed(order=["interval", "depth"]), AddMixed(order=["depth", "interval", "depth"]),
             AddMixed(order=["interval", "depth", "interval"]), AddMixed(order=["depth", "depth"], tol=False),
             AddMixed(order=["interval", "interval"], tol=False)]
@@ -342,7 +353,9 @@ def main(tier, seed):
         ],
         outside=["more than three successive logs; text data",
                  "float32 rounding of stored surveys", "direction beyond the last station when the last leg has zero length",
-                 "more than 3 survey rows (z3 needs > 40 min on 4 rows: dropped from the thorough tier)"],
+                 "more than 3 survey rows (z3 needs > 40 min on 4 rows: dropped from the thorough tier)",
+                 "interval logs of 2 + 1 rows (more than 40 min of exploration: dropped; 1+1, 2+0 and 3+0 rows are explored)",
+                 "two depths of one added log nearest to the same existing depth within the tolerance (open finding F-C18-2)"],
         bounds={"quick": "survey tables with 1-2 rows, 1-2 symbolic query depths; match_values/merge_arrays with <=3 head and <=2 query values (any order)", "thorough": "1-3 rows, 1-2 query depths; match/merge with <=4 head, <=3 query values"}[tier],
         expected_outcomes={"Desurvey": {"ok"}, "MatchValues": {"ok"}, "AddDepthData": {"ok"}, "AddIntervalData": {"ok"}, "AddMixed": {"ok"}},
         timeout_ms=8000 if tier == "quick" else 20000,
